@@ -36,7 +36,9 @@ class Contract:
         self.unchecked = kw.pop("unchecked", [])    # arrays whose index obligations are NOT generated (listed as unverified in the evidence)
         self.store_asserts = kw.pop("store_asserts", {})   # array or "array@Lk" -> [spec exprs over the current state, `value` and `at` (alias `index`)]: must hold at every store to that array (inside loop Lk)
         self.sums = kw.pop("sums", {})              # name -> (bound var, n expr, term expr): prefix sums with a proved monotonicity lemma
-        self.pure = kw.pop("pure", False)           # as a callee: reads only its scalar arguments, writes nothing; the result is an unknown value of the return type
+        self.pure = kw.pop("pure", False)           # as a callee: reads only its scalar arguments, writes nothing; the result is an unknown value of the return type ("uf": the same uninterpreted function of the arguments at every call)
+        self.z3_budget_ms = kw.pop("z3_budget_ms", None)   # first z3 attempt per obligation (then cvc5, then z3 again with the long budget)
+        self.stdlib = kw.pop("stdlib", False)       # the unit uses std::vector<int64_t> / std::iota / std::next / std::sort / std::stable_sort / std::transform: built-ins with ASSUMED contracts
         if kw:
             raise TypeError("unknown contract fields %s" % list(kw))
 
@@ -100,12 +102,14 @@ def modified(stmts_and_exprs):
         elif k == "addr":
             lv(e[1])
         elif k == "call":
+            if e[1] in ("sort", "stable_sort", "transform", "iota"):
+                ma.add("*")        # writes through iterators: every writable array may change
             for a in e[2]:
                 ex(a)
                 # an array handed to a callee may be written by it
                 if a[0] == "v" and isinstance(a[2], str) and a[2].startswith("p:") and not a[2].startswith("p:c:"):
                     ma.add(a[1])
-        elif k in ("c", "v", "g", "null", "str", "fn", "enum", "this"):
+        elif k in ("c", "v", "g", "null", "str", "fn", "enum", "this", "lambda", "unsupported"):
             return
         else:
             for x in e[1:]:
@@ -171,6 +175,7 @@ class Unit:
         self.ev = Evaluator(func)
         self.ev.globals = dict(self.consts)
         self.ev.call_handler = self.handle_call
+        self.ev.mcall_handler = self.handle_mcall
         self.ev.assume_store_fits = True
         self.ev.unchecked = set(self.c.unchecked)
         if self.c.store_asserts:
@@ -326,6 +331,8 @@ class Unit:
         name = e[1]
         if name == "memcpy" and len(e[2]) == 3 and "memcpy" not in self.contracts:
             return self.call_memcpy(ev, e, st)
+        if self.c.stdlib and name in ("iota", "next", "sort", "stable_sort", "transform"):
+            return self.call_std(ev, e, st)
         ent = self.contracts.get(self.c.calls.get(name, name))
         if ent is None:
             raise EvalError("call to %s without a contract" % name)
@@ -348,12 +355,25 @@ class Unit:
 
         if cc.pure:
             # the arguments are evaluated (their own safety obligations are generated); nothing is written
+            vals = []
             for (pn, pt), a in zip(cfunc["params"], args):
                 if pt.startswith("p:") and not pt.startswith("p:c:"):
                     raise EvalError("call to %s: a pure callee cannot take a writable pointer" % name)
                 if pt.startswith("x:") or pt.startswith("r:x:"):
                     continue        # a function reference / opaque object handed through
-                ev.ev(a, st)
+                vals.append(ev.ev(a, st))      # (a template callee: the argument already has the instantiation's type)
+            if cc.pure == "uf" and rty == "bool":
+                # a deterministic function of its arguments: the same uninterpreted predicate at every call (and in
+                # contracts, where it is written P_<name>(...))
+                def raw(v):
+                    # an element of a bool array is loaded as `x != 0`: hand the stored integer x itself to the predicate
+                    # (the form a contract writes: P_name(a[i], a[j]))
+                    if v.k == "bool" and z3.is_distinct(v.t) and v.t.num_args() == 2 and z3.is_int_value(v.t.arg(1)) and v.t.arg(1).as_long() == 0:
+                        return v.t.arg(0)
+                    return v.t if v.k == "flt" else to_int(v)
+                ts = [raw(v) for v in vals]
+                return Val(sym.uf("call_%s_%s" % (name, "".join("F" if t.sort() == sym.F else "I" for t in ts)),
+                                  *([t.sort() for t in ts] + [sym.B]))(*ts), "bool")
             return result_val()
         cst = State()          # callee's view, before the call
         post_updates = []
@@ -441,6 +461,107 @@ class Unit:
             else:
                 st.arrs[target] = news[target]
         return res
+
+    # ---- std::vector / <algorithm> built-ins (contract option stdlib=True); their contracts are ASSUMED
+    def handle_mcall(self, ev, e, st):
+        _, obj, meth, args, ty = e
+        if self.c.stdlib and obj[0] == "v" and obj[1] in st.arrs and obj[1] in ev.extents and not args:
+            if meth == "begin":
+                return Val(IV(0), "ptr", obj[1])
+            if meth == "end":
+                return Val(ev.extents[obj[1]], "ptr", obj[1])
+        raise EvalError("member call %s" % meth)
+
+    def _iter_range(self, ev, a, b, st, what):
+        lo, hi = ev.ev(a, st), ev.ev(b, st)
+        if lo.k != "ptr" or hi.k != "ptr" or lo.arr != hi.arr or lo.arr not in st.arrs:
+            raise EvalError("%s: iterators into different or unknown containers" % what)
+        ext = ev.extents.get(lo.arr)
+        if ext is None:
+            raise EvalError("%s: container without extent" % what)
+        ev.oblige("S.iter", z3.And(0 <= lo.t, lo.t <= hi.t, hi.t <= ext), st,
+                  "%s: [first, last) is a valid range of %s (0 <= first <= last <= size)" % (what, lo.arr))
+        return lo.arr, lo.t, hi.t
+
+    def _lambda_term(self, ev, lam, argvals, st, safety):
+        """the value returned by a lambda (single `return expr;` body) for the given parameter values"""
+        if lam[0] != "lambda" or len(lam[2]) != 1 or lam[2][0][0] != "ret" or lam[2][0][1][0] != "val" or len(lam[1]) != len(argvals):
+            raise EvalError("lambda body is not a single return")
+        s2 = st.fork()
+        for (pn, pt), v in zip(lam[1], argvals):
+            s2.vars[pn] = Val(v, "int")
+            s2.types[pn] = unconst(pt)
+        old = ev.emit_safety
+        ev.emit_safety = safety
+        try:
+            return ev.ev(lam[2][0][1][1], s2), s2
+        finally:
+            ev.emit_safety = old
+
+    def call_std(self, ev, e, st):
+        name, args = e[1], e[2]
+        if name == "next" and len(args) == 2:
+            it = ev.ev(args[0], st)
+            n = to_int(ev.ev(args[1], st))
+            if it.k != "ptr" or it.arr not in st.arrs or ev.extents.get(it.arr) is None:
+                raise EvalError("std::next on something that is not an iterator into a local vector")
+            ev.oblige("S.iter", z3.And(0 <= it.t + n, it.t + n <= ev.extents[it.arr]), st,
+                      "std::next stays inside [begin, end] of %s" % it.arr)
+            return Val(it.t + n, "ptr", it.arr)
+        if name == "iota" and len(args) == 3:
+            arr, lo, hi = self._iter_range(ev, args[0], args[1], st, "std::iota")
+            v0 = to_int(ev.ev(args[2], st))
+            new = ev.fresh(arr + "_iota", ev.arr_sort(arr))
+            q = z3.Int("q?iota")
+            st.assume(z3.ForAll([q], z3.Select(new, q) == z3.If(z3.And(lo <= q, q < hi), v0 + (q - lo), z3.Select(st.arrs[arr], q))))
+            st.arrs[arr] = new
+            return Val(IV(0), "opaque")
+        if name == "transform" and len(args) == 4:
+            arr, lo, hi = self._iter_range(ev, args[0], args[1], st, "std::transform")
+            out = ev.ev(args[2], st)
+            if out.k != "ptr" or out.arr != arr or not z3.eq(z3.simplify(out.t - lo), IV(0)):
+                raise EvalError("std::transform that is not in place")
+            old = st.arrs[arr]
+            q = z3.Int("q?transform")
+            fv, _ = self._lambda_term(ev, args[3], [z3.Select(old, q)], st, False)
+            # safety of the function on every element of the range
+            q1 = ev.fresh("q_elem")
+            s2 = st.fork()
+            s2.assume(z3.And(lo <= q1, q1 < hi))
+            self._lambda_term(ev, args[3], [z3.Select(old, q1)], s2, True)
+            new = ev.fresh(arr + "_transform", ev.arr_sort(arr))
+            st.assume(z3.ForAll([q], z3.Select(new, q) == z3.If(z3.And(lo <= q, q < hi), to_int(fv), z3.Select(old, q))))
+            st.arrs[arr] = new
+            return Val(IV(0), "opaque")
+        if name in ("sort", "stable_sort") and len(args) == 3:
+            arr, lo, hi = self._iter_range(ev, args[0], args[1], st, "std::" + name)
+            old = st.arrs[arr]
+            lam = args[2]
+            # the comparator is called on pairs of ELEMENTS of the range: whatever it reads must be in bounds
+            q1, q2 = ev.fresh("q_elem"), ev.fresh("q_elem")
+            s2 = st.fork()
+            s2.assume(z3.And(lo <= q1, q1 < hi, lo <= q2, q2 < hi))
+            self._lambda_term(ev, lam, [z3.Select(old, q1), z3.Select(old, q2)], s2, True)
+            # ASSUMED contract of std::sort / std::stable_sort (the comparator must be a strict weak order: proved for the
+            # sort_order_* / argsort_order_* templates by the comparator obligations): the range becomes a permutation
+            # of itself, ordered by the comparator (stable_sort: equivalent elements keep their order); nothing else changes
+            new = ev.fresh(arr + "_sorted", ev.arr_sort(arr))
+            k = next(ev.counter)
+            perm = z3.Function("perm!%d" % k, z3.IntSort(), z3.IntSort())
+            inv = z3.Function("perminv!%d" % k, z3.IntSort(), z3.IntSort())
+            q, a, b = z3.Int("q?sort"), z3.Int("a?sort"), z3.Int("b?sort")
+            st.assume(z3.ForAll([q], z3.Implies(z3.And(lo <= q, q < hi),
+                                                z3.And(lo <= perm(q), perm(q) < hi, z3.Select(new, q) == z3.Select(old, perm(q)), inv(perm(q)) == q)),
+                                patterns=[z3.Select(new, q)]))
+            st.assume(z3.ForAll([q], z3.Implies(z3.Or(q < lo, q >= hi), z3.Select(new, q) == z3.Select(old, q)), patterns=[z3.Select(new, q)]))
+            cab, _ = self._lambda_term(ev, lam, [z3.Select(new, a), z3.Select(new, b)], st, False)
+            cba, _ = self._lambda_term(ev, lam, [z3.Select(new, b), z3.Select(new, a)], st, False)
+            st.assume(z3.ForAll([a, b], z3.Implies(z3.And(lo <= a, a < b, b < hi), z3.Not(to_bool(cba)))))
+            if name == "stable_sort":
+                st.assume(z3.ForAll([a, b], z3.Implies(z3.And(lo <= a, a < b, b < hi, z3.Not(to_bool(cab)), z3.Not(to_bool(cba))), perm(a) < perm(b))))
+            st.arrs[arr] = new
+            return Val(IV(0), "opaque")
+        raise EvalError("std::%s with %d arguments" % (name, len(args)))
 
     # ---- statements
     def run(self):
@@ -533,6 +654,23 @@ class Unit:
         if k == "decl":
             _, name, ty, init, ln = s
             ty = unconst(ty)
+            if self.c.stdlib and ty.startswith("x:std::vector<") and init is not None and init[0] == "construct" and len(init[2]) >= 1:
+                # std::vector<int64_t> v(n): a local array of n zero-initialised elements (a negative n would be an
+                # enormous allocation: S.alloc)
+                if ty not in ("x:std::vector<long>", "x:std::vector<int64_t>"):
+                    raise EvalError("vector element type %s" % ty)
+                nexpr = init[2][0]
+                while nexpr[0] == "cast":
+                    nexpr = nexpr[1]
+                n = to_int(ev.ev(nexpr, st))
+                ev.oblige("S.alloc", n >= 0, st, "std::vector %s is created with a non-negative size" % name)
+                ev.elem[name] = "i64"
+                ev.writable[name] = True
+                ev.extents[name] = n
+                st.arrs[name] = z3.K(z3.IntSort(), z3.IntVal(0))
+                st.vars[name] = Val(IV(0), "ptr", name)
+                st.types[name] = "p:i64"
+                return [("fall", st)]
             st.types[name] = ty
             if init is not None:
                 v = ev.ev(init, st)
